@@ -13,6 +13,7 @@ package main
 import (
 	"bufio"
 	"fmt"
+	"mltwist/pkg/expr"
 	"os"
 	"strings"
 )
@@ -32,6 +33,30 @@ func register(name string, f opFunc) {
 type tokens struct {
 	toks []string
 	pos  int
+
+	// consts interns constants: identical constant tokens of one line are
+	// one expr.Const value sharing one byte slice, like a constant which is
+	// used at several places of a program.
+	consts map[string]expr.Const
+	// inputs are all expressions parsed from the line with their canonical
+	// text at parse time. They are printed again after the operation to
+	// detect operations which modify values they were given.
+	inputs []parsedInput
+}
+
+type parsedInput struct {
+	ex   expr.Expr
+	text string
+}
+
+// inputsUnchanged reports whether all parsed inputs still print the same.
+func (t *tokens) inputsUnchanged() bool {
+	for _, in := range t.inputs {
+		if fmtExpr(in.ex) != in.text {
+			return false
+		}
+	}
+	return true
 }
 
 type parseError string
@@ -76,6 +101,9 @@ func runLine(line string) (res string) {
 	res = f(t)
 	if !t.done() {
 		panic(parseError("trailing tokens"))
+	}
+	if !t.inputsUnchanged() {
+		res += " !!input-mutated"
 	}
 	return res
 }
